@@ -223,14 +223,14 @@ func c01Run(in c01In) c01Out {
 			frozen[n.Host] = true
 			snap := map[string]vk.Node{}
 			for h, x := range w.Nodes {
-				snap[h] = *x
+				snap[h] = x.Snapshot()
 			}
 			out.Freezes = append(out.Freezes, c01Promotion{Host: n.Host, Nodes: snap, Registry: d.rawChildren("optimization_nodes")})
 		}
 		if kind == "SSetWritable" {
 			snap := map[string]vk.Node{}
 			for h, x := range w.Nodes {
-				snap[h] = *x
+				snap[h] = x.Snapshot()
 			}
 			out.Promotions = append(out.Promotions, c01Promotion{Host: n.Host, Nodes: snap, Registry: d.rawChildren("optimization_nodes")})
 		}
@@ -242,7 +242,7 @@ func c01Run(in c01In) c01Out {
 		w.Mu.Lock()
 		out.AtLock = map[string]vk.Node{}
 		for h, x := range w.Nodes {
-			out.AtLock[h] = *x
+			out.AtLock[h] = x.Snapshot()
 		}
 		w.Mu.Unlock()
 	}
